@@ -116,7 +116,8 @@ class Result:
             if kf["signature"] == signature:
                 self.known_hits[signature] = self.known_hits.get(signature, 0) + 1
                 return False
-        if len(self.violations) >= 25:
+        nsig = sum(1 for s_, _, _ in self.violations if s_ == signature)
+        if nsig >= 3 or len(self.violations) >= 400:
             self.violations.append((signature, None, what))
             return True
         d = os.path.join(REPLAY, "%s-%s" % (self.prop, h([signature, replay_obj])))
@@ -161,6 +162,11 @@ class Result:
             if self.known_hits.get(kf["signature"]):
                 print("KNOWN-FINDING: property=%s %s (signature %s, seen %d times)" % (
                     self.prop, kf["what"], kf["signature"], self.known_hits[kf["signature"]]))
+        sig_counts = {}
+        for sig, d, what in self.violations:
+            sig_counts[sig] = sig_counts.get(sig, 0) + 1
+        for sig in sorted(sig_counts):
+            print("  violation class %-70s x%d" % (sig, sig_counts[sig]))
         seen = set()
         for sig, d, what in self.violations:
             if d is None or sig in seen:
